@@ -86,7 +86,7 @@ func init() {
 				}
 			}
 			for _, claim := range []string{"implId", "bootSeed", "nonce", "instId"} {
-				for n := 0; n <= 80; n++ {
+				for _, n := range sweepLens {
 					for b0 := 0; b0 <= 2; b0++ {
 						doSet(claim, hbytes(n, b0))
 					}
@@ -166,7 +166,7 @@ func init() {
 		}
 		// component setters and getters
 		for _, f := range []string{"mv", "sid"} {
-			for n := 0; n <= 80; n++ {
+			for _, n := range sweepLens {
 				for b0 := 0; b0 <= 2; b0 += 2 {
 					for pre := 0; pre < 2; pre++ {
 						sc := &psatoken.SwComponent{}
@@ -321,3 +321,19 @@ func buildErr(chain []string) error {
 	}
 	return e
 }
+
+// sweepLens: 0..80 exhaustively, and every length that equals a valid size (8..33, 48, 64) modulo 2^8 or 2^16 -
+// what a narrowing integer conversion of the length would confuse with it.
+var sweepLens = func() []int {
+	out := []int{}
+	for n := 0; n <= 80; n++ {
+		out = append(out, n)
+	}
+	for _, base := range []int{256, 512, 65536} {
+		for n := 0; n <= 34; n++ {
+			out = append(out, base+n)
+		}
+		out = append(out, base+47, base+48, base+49, base+63, base+64, base+65)
+	}
+	return append(out, 255, 65535)
+}()
